@@ -26,6 +26,12 @@ import numpy as np
 from vf import lattice
 from vf.cli import WorkerResult
 
+
+def _gt(a, b):
+    """a > b that is also True when a is NaN (a silent NaN must never pass a tolerance test)."""
+    return ~(np.asarray(a) <= np.asarray(b))
+
+
 LEVEL = "exploration"
 RULE = (
     "deviation-bounded product of molecule x constructor x radial spec x aim weights x store x "
@@ -178,7 +184,7 @@ def _struct_case(arg):
     res.count()
     ref = sum(float(np.sum(hand[a].weights * aimw[idx[a]:idx[a + 1]] * f[idx[a]:idx[a + 1]])) for a in range(len(hand)))
     got = float(mg.integrate(f))
-    if abs(got - ref) > 1e-12 * (abs(ref) + float(np.sum(np.abs(atw * aimw * f)))):
+    if _gt(abs(got - ref), 1e-12 * (abs(ref) + float(np.sum(np.abs(atw * aimw * f))))):
         res.violation(f"{tag}:integral-not-sum-of-atomic-integrals", f"{cfg}: {got!r} vs {ref!r}", case)
     # per-atom grids handed back
     for a in range(len(hand)):
